@@ -504,6 +504,36 @@ fn c03_walk(idx: usize, ctx: &Ctx, rpt: &mut Report) {
     let cwd = PathBuf::from(&ctx.scratch);
     let use_glob = idx % 3 == 0;
     let gexpr = if use_glob { Some(walkgen::walk_glob(&mut rng, &spec)) } else { None };
+    // Round 9 (C03-J): a glob with an invariant prefix, negated by a pattern that names a
+    // directory beneath the prefix *without* the prefix (`src/**` not `tests/**` over
+    // `src/tests/..`). The negation is matched against the path relative to the directory given
+    // to the walk, so it must leave `src/tests` alone.
+    let (gexpr, layer) = {
+        let nested: Vec<(String, String)> = spec
+            .nodes
+            .iter()
+            .filter(|n| n.kind == Kind::Dir && n.rel.contains('/'))
+            .filter(|n| spec.nodes.iter().any(|m| fsmodel::is_strictly_beneath(&m.rel, &n.rel)))
+            .map(|n| {
+                let cut = n.rel.rfind('/').unwrap();
+                (n.rel[..cut].to_string(), n.rel[cut + 1..].to_string())
+            })
+            .collect();
+        if idx % 9 == 3 && !nested.is_empty() {
+            let (d, c) = rng.pick(&nested).clone();
+            let tail = rng.pick_str(&["**", "**/*", "**/*.*"]);
+            let neg = match rng.below(3) {
+                0 => format!("{}/**", wax::escape(&c)),
+                1 => format!("{{{}/**,zz}}", wax::escape(&c)),
+                _ => format!("{}/**/*", wax::escape(&c)),
+            };
+            rpt.bucket("negation:names-a-directory-beneath-the-prefix-without-the-prefix");
+            (Some(format!("{}/{}", wax::escape(&d), tail)), LayerSpec::NotText(neg))
+        }
+        else {
+            (gexpr, layer)
+        }
+    };
     ctx.begin(idx, &format!("walk {:?} not {:?}", gexpr, describe_layer(&layer).to_string()));
     let glob = match &gexpr {
         Some(e) => match Glob::new(e) {
